@@ -524,9 +524,9 @@ fn c05_stmt(p: &mut Prog, rng: &mut Rng, fwd_labels: &mut Vec<String>)
 			{
 				0 | 1 => format!("0x{:X}", rng.next() & if size == 1 { 0xFF } else if size == 2 { 0xFFFF } else { 0xFFFF_FFFF }),
 				2 if size == 4 && !p.labels.is_empty() => rng.pick(&p.labels).0.clone(),
-				3 if size == 4 => { let n = format!("fl{}", { p.uniq += 1; p.uniq }); fwd_labels.push(n.clone()); n },
+				3 if size == 4 => { let n = format!("fl{}", { p.uniq += 1; p.uniq }); fwd_labels.push(n.clone()); if rng.chance(1, 3) { n } else { fwd_expr(rng, &n, (0, 0xFFFF_FFFF), 0xFFFF_FFFF) } },
 				4 if size == 4 && !p.labels.is_empty() => format!("{} + {}", rng.pick(&p.labels).0, rng.below(9)),
-				_ => { p.uniq += 1; let n = format!("C{}", p.uniq); let v = rng.below(200); if rng.chance(1, 2) { p.text.push_str(&format!(".const {}, {};\n", n, v)); format!("{} + 1", n) } else { fwd_consts_push(p, &n, v); format!("{} & 0xFF", n) } },
+				_ => { p.uniq += 1; let n = format!("C{}", p.uniq); let v = rng.below(200); if rng.chance(1, 2) { p.text.push_str(&format!(".const {}, {};\n", n, v)); format!("{} + 1", n) } else { fwd_consts_push(p, &n, v); if rng.chance(1, 3) { format!("{} & 0xFF", n) } else { fwd_expr(rng, &n, (v as i128, v as i128), if size == 1 { 0xFF } else if size == 2 { 0xFFFF } else { 0xFFFF_FFFF }) } } },
 			};
 			p.text.push_str(&format!(".{} {};\n", d, e));
 			p.cur += size;
@@ -574,6 +574,17 @@ fn c05_stmt(p: &mut Prog, rng: &mut Rng, fwd_labels: &mut Vec<String>)
 			p.text.push_str(&format!(".const {}, {};\n", n, e));
 		},
 	}
+}
+
+/// an expression (all operators, nesting up to 4) over one name that is defined later; `iv`: what the generator knows of its value
+fn fwd_expr(rng: &mut Rng, name: &str, iv: exprgen::Iv, mask: i64) -> String
+{
+	let names = vec![(Ex::Name(name.to_string()), iv)];
+	let depth = 1 + rng.below(4) as u32;
+	let (e, (lo, hi)) = exprgen::gen_with(rng, depth, &Leaves{names: &names, kmask: i64::MAX}, &[name.to_string()]);
+	let e = if lo >= 0 && hi <= mask as i128 { e } else { exprgen::close_mask(e, mask, 0) };
+	let minimal = rng.chance(1, 2);
+	exprgen::show(&e, rng, minimal)
 }
 
 thread_local! { static FWD_CONSTS: std::cell::RefCell<Vec<(String, u64)>> = std::cell::RefCell::new(vec![]); }
@@ -726,6 +737,19 @@ fn c05x_program(rng: &mut Rng) -> Project
 				for n in imp_pending.iter().chain(imp_known.iter()) { x.files[fi].1.push_str(&format!(".import {};\n", n)); }
 				let mut cpend: Vec<XName> = vec![];
 				let mut cknown: Vec<String> = imp_known.clone();
+				// the other direction: a name the root uses as a plain forward reference is declared (`.global`) and valued in the included file
+				let mut handed: Vec<String> = vec![];
+				if rng.chance(1, 3)
+				{
+					if let Some(pos) = pending.iter().position(|n| !n.declared)
+					{
+						let n = pending.remove(pos);
+						x.files[fi].1.push_str(&format!(".global {};
+", n.name));
+						handed.push(n.name.clone());
+						cpend.push(n);
+					}
+				}
 				let mut own_holes: Vec<usize> = vec![];
 				let mut imp_only: Vec<usize> = vec![];
 				for _ in 0..2 + rng.below(4)
@@ -752,6 +776,7 @@ fn c05x_program(rng: &mut Rng) -> Project
 				// the same statements once more inside the file (its own names are defined now, the imported ones may still be open)
 				for h in own_holes { if TEMPL[x.holes[h].templ].kind == 0 && rng.chance(1, 2) { let t = x.holes[h].templ; x.hole(fi, t, &[], &[], Some(h)); } }
 				x.files[0].1.push_str(".include \"c1.asm\";\n");
+				known.extend(handed);
 				let mut imps = imp_pending; imps.extend(imp_known);
 				child = Some((imps, imp_only));
 			},
@@ -796,7 +821,7 @@ fn c05x_program(rng: &mut Rng) -> Project
 		let mut names: Vec<(Ex, exprgen::Iv)> = vec![];
 		for n in hole.unknown.iter() { for _ in 0..3 { names.push(iv(n)); } }
 		for n in hole.known.iter() { names.push(iv(n)); }
-		let lv = Leaves{names: &names};
+		let lv = Leaves{names: &names, kmask: i64::MAX};
 		let must: Vec<String> = if hole.unknown.is_empty() { hole.known.clone() } else { hole.unknown.clone() };
 		// the wanted value of a PC-relative operand: a target in range of the instruction
 		let a = hole.addr as i64;
